@@ -105,6 +105,24 @@ def harness(name, tnames, max_nodes):
         r2 = top.sanitize()
         if r2 is not True:
             raise Violation("C16: a second sanitize() returned %r" % (r2,), {"info": info})
+        # history: the tree is edited after having been sanitized, and sanitized again
+        cross = [(a, b) for a in nodes for b in nodes
+                 if a is not b and parent.get(b) is not None and parent.get(a) is not parent.get(b)]
+        cross = cross[:1] + cross[len(cross) // 2:len(cross) // 2 + 1] + cross[-1:]
+        if cross and api.flag("edit_and_sanitize_again"):
+            a, b = cross[api.choice("new_edge", len(cross))]
+            keep = set(b.required)
+            b.requires(a)
+            info["then"] = "%s.requires(%s); sanitize()" % (b, a)
+            r3 = top.sanitize()
+            if set(b.required) != keep:
+                raise Violation("C16: after a new dangling requirement %s -> %s and sanitize(), %s requires %s, "
+                                "expected %s" % (a, b, b, sorted(map(str, b.required)), sorted(map(str, keep))),
+                                {"info": info})
+            if r3 is not False:
+                raise Violation("C16: sanitize() returned %r although the new requirement %s -> %s had to be "
+                                "removed" % (r3, a, b), {"info": info})
+            api.note("c16_resanitized")
         api.sample(info)
     return Harness(name, fn, bounds={"templates": {t: TEMPLATES[t] for t in tnames},
                                      "edges": "every ordered pair of distinct nodes (members, siblings, parent, "
